@@ -102,6 +102,38 @@ func oracleRestart(lr *LifeRun, ix *lifeIndex, r *fw.Result) {
 				}
 			}
 		}
+		// never relaunched once a project shutdown has been requested: after the
+		// shutdown has flagged the running processes (shutdown.afterPrepare) an
+		// instance that already ran a command must not launch another one
+		prep := -1
+		for k := range ix.ev {
+			if ix.ev[k].Kind == sim.EvYield && ix.ev[k].Str == "shutdown.afterPrepare" {
+				prep = ix.ev[k].Seq
+				break
+			}
+		}
+		if prep >= 0 {
+			seen := map[int]bool{}
+			for _, l := range pl.Launches {
+				// decided after the flag: the back-off of this relaunch expired after it
+				decided := -1
+				for k := range ix.ev {
+					e := &ix.ev[k]
+					if e.Seq >= l.Seq {
+						break
+					}
+					if e.Kind == sim.EvYield && e.Str == "run.afterBackoff" && e.Proc == p.Name {
+						decided = e.Seq
+					}
+				}
+				if seen[l.Inst] && l.Seq > prep && decided > prep {
+					if is, ok := pl.InstSeq[l.Inst]; ok && is < prep {
+						r.Add("C02", "relaunch-after-shutdown-request", "%s was relaunched (attempt %d, seq %d) after the project shutdown had been requested and had flagged the running processes (seq %d)", p.Name, l.Att, l.Seq, prep)
+					}
+				}
+				seen[l.Inst] = true
+			}
+		}
 		// never relaunched once a stop of that process returned / a shutdown returned
 		for _, e := range ix.ev {
 			if e.Kind != sim.EvApiRet || e.Code != 0 {
@@ -363,10 +395,13 @@ func oracleState(lr *LifeRun, ix *lifeIndex, r *fw.Result) {
 			alive := ix.aliveAt(name, e.Seq)
 			switch {
 			case isTerminal(next) && alive:
-				// only a violation if the live command belongs to this instance
 				for _, l := range pl.Launches {
-					if !l.Failed && l.Inst == e.Inst && l.Seq < e.Seq && (l.ExitSeq < 0 || l.ExitSeq > e.Seq) {
-						r.Add("C09", "terminal-while-alive", "%s reported %s (seq %d) while its command (attempt %d) was still alive", name, next, e.Seq, l.Att)
+					if !l.Failed && l.Seq < e.Seq && (l.ExitSeq < 0 || l.ExitSeq > e.Seq) {
+						key := "terminal-while-alive"
+						if l.Inst != e.Inst {
+							key = "terminal-while-successor-alive"
+						}
+						r.Add("C09", key, "%s reported %s (seq %d, written by instance %d) while a command of it (attempt %d, instance %d) was still alive", name, next, e.Seq, e.Inst, l.Att, l.Inst)
 					}
 				}
 			}
